@@ -30,22 +30,91 @@ theorem answers_roundtrip (limit : Nat) (as : List UInt8) (h : ∀ a ∈ as, Pla
     parseProposalAnswer limit (fsPrefix ++ as) as.length = some (as.map (fun a => (a, (0 : Int)))) :=
   B2F.answers_roundtrip limit as h
 
-/-- The order in which messages are proposed: `sortProposals` returns a permutation of its input. -/
-theorem sort_perm (ps : List Proposal) : (sortProposals ps).length = ps.length := by
+theorem insertSorted_perm (p : Proposal) : ∀ l : List Proposal, (insertSorted p l).Perm (p :: l)
+  | [] => List.Perm.refl _
+  | q :: qs => by
+    simp only [insertSorted]
+    split
+    · exact List.Perm.refl _
+    · exact ((insertSorted_perm p qs).cons q).trans (List.Perm.swap p q qs)
+
+/-- The order in which messages are proposed: `sortProposals` returns a PERMUTATION of its input -
+no queued message is dropped from, duplicated in or invented for the proposal list. -/
+theorem sort_perm (ps : List Proposal) : (sortProposals ps).Perm ps := by
   unfold sortProposals
   induction ps with
-  | nil => rfl
-  | cons p t ih =>
-    simp only [List.foldr_cons, List.length_cons]
-    rw [← ih]
-    generalize List.foldr insertSorted [] t = l
-    induction l with
-    | nil => rfl
-    | cons q qs ihq =>
-      simp only [insertSorted]
+  | nil => exact List.Perm.refl _
+  | cons p t ih => exact (insertSorted_perm p _).trans (ih.cons p)
+
+theorem sort_length (ps : List Proposal) : (sortProposals ps).length = ps.length := (sort_perm ps).length_eq
+
+theorem bytesLt_asymm : ∀ a b : Bytes, bytesLt a b = true → bytesLt b a = false
+  | [], [], h => by simp [bytesLt] at h
+  | [], _ :: _, _ => by simp [bytesLt]
+  | _ :: _, [], h => by simp [bytesLt] at h
+  | x :: xs, y :: ys, h => by
+    simp only [bytesLt] at h ⊢
+    by_cases h1 : x < y
+    · have h2 : ¬ y < x := fun h2 => absurd (UInt8.lt_trans h1 h2) (UInt8.lt_irrefl x)
+      simp [h2, h1]
+    · by_cases h2 : y < x
+      · simp [h1, h2] at h
+      · simp only [h1, h2, if_false] at h ⊢
+        exact bytesLt_asymm xs ys h
+
+/-- `propLe` is total: of two proposals one may always go first. -/
+theorem propLe_total (a b : Proposal) (h : propLe a b = false) : propLe b a = true := by
+  unfold propLe at h ⊢
+  simp only at h ⊢
+  by_cases hp : precedence a.title = precedence b.title
+  · have hp' : precedence b.title = precedence a.title := hp.symm
+    by_cases hc : a.csize = b.csize
+    · have hc' : b.csize = a.csize := hc.symm
+      simp only [hp, hc, ne_eq, not_true_eq_false, if_false, Bool.not_eq_false'] at h
+      simp only [hp', hc', ne_eq, not_true_eq_false, if_false, Bool.not_eq_true']
+      exact bytesLt_asymm _ _ h
+    · have hc' : ¬ b.csize = a.csize := fun e => hc e.symm
+      simp only [hp, hc, ne_eq, not_true_eq_false, not_false_eq_true, if_false, if_true, decide_eq_false_iff_not] at h
+      simp only [hp', hc', ne_eq, not_true_eq_false, not_false_eq_true, if_false, if_true, decide_eq_true_eq]
+      omega
+  · have hp' : ¬ precedence b.title = precedence a.title := fun e => hp e.symm
+    simp only [hp, ne_eq, not_false_eq_true, if_true, decide_eq_false_iff_not] at h
+    simp only [hp', ne_eq, not_false_eq_true, if_true, decide_eq_true_eq]
+    omega
+
+/-- neighbours are in `propLe` order -/
+def AdjSorted : List Proposal → Prop
+  | [] => True
+  | [_] => True
+  | a :: b :: t => propLe a b = true ∧ AdjSorted (b :: t)
+
+theorem insertSorted_adj (p : Proposal) : ∀ l : List Proposal, AdjSorted l → AdjSorted (insertSorted p l)
+  | [], _ => trivial
+  | [q], _ => by
+    simp only [insertSorted]
+    split
+    · rename_i h; exact ⟨h, trivial⟩
+    · rename_i h; exact ⟨propLe_total p q (by simpa using h), trivial⟩
+  | q :: r :: t, hs => by
+    simp only [insertSorted]
+    split
+    · rename_i h; exact ⟨h, hs⟩
+    · rename_i h
+      have ih := insertSorted_adj p (r :: t) hs.2
+      simp only [insertSorted] at ih ⊢
       split
-      · rfl
-      · simp [ihq]
+      · rename_i h2; exact ⟨propLe_total p q (by simpa using h), h2, hs.2⟩
+      · rename_i h2
+        simp only [h2, if_false] at ih
+        exact ⟨hs.1, ih⟩
+
+/-- **Proposal order**: what `sortProposals` returns is ordered by precedence (//WL2K Z/ before O/ before P/
+before the rest), then by compressed size, then by MID - each neighbour pair is in that order. -/
+theorem sort_sorted (ps : List Proposal) : AdjSorted (sortProposals ps) := by
+  unfold sortProposals
+  induction ps with
+  | nil => trivial
+  | cons p t ih => exact insertSorted_adj p _ ih
 
 /-- The compressed bytes offered do not depend on how the sender's writes were chunked (C06). -/
 theorem payload_chunk_independent (xs : List Bytes) :
